@@ -247,7 +247,7 @@ func c17r4(r *R) {
 				return
 			}
 			cn := calleeName(c.Common())
-			if cn != "(*"+modPath+"/ruleset.RegexpMatcher).Match" && !(c.Common().IsInvoke() && strings.HasSuffix(cn, "forwarder.Matcher.Match")) {
+			if cn != "(*ruleset.RegexpMatcher).Match" && !(c.Common().IsInvoke() && strings.HasSuffix(cn, "forwarder.Matcher.Match")) {
 				return
 			}
 			args := callArgs(c.Common())
